@@ -79,7 +79,7 @@ package httpd
 //@ pure storePI(s *Store) bool = s.W != nil && s.P != nil && s.W.Origin == nil && s.W.Status == 0 && s.R == nil && s.I == nil && len(s.P.V) == 0 && len(s.P.K) == 0 && len(s.id) == 9
 //@ poolinv Mux.storePool s *Store :: storePI(s)
 
-//@ pure muxOK(mux *Mux) bool = mux.root != nil && mux.root.inTrie && mux.root.np == 0 && trieOK() && mux.routeNotFound != nil && mux.relayHandler != nil
+//@ pure muxOK(mux *Mux) bool = mux.root != nil && mux.root.inTrie && mux.root.np == 0 && trieOK() && mux.routeNotFound != nil && mux.relayHandler != nil && mux.maxParams >= 0 && mux.maxParams <= 72057594037927936
 
 //@ ghost var relayCalls int
 //@ ghost var poolPuts int
@@ -146,7 +146,7 @@ package httpd
 //@   ensures trie: trieOK()
 //@   ensures maps: mapsOK()
 //@   ensures root: node.inTrie && node.np == 0
-//@   ensures ok: err == nil ==> info.registered && paramsCnt >= 0
+//@   ensures ok: err == nil ==> info.registered && paramsCnt >= 0 && paramsCnt <= 72057594037927936
 //@   ensures keep: forall i *RouteInfo {i.registered} :: old(i.registered) ==> i.registered
 //@   ghost before call nextNodeOrNew#2 assert seg: len(arg1) > 0 && arg1[0] != '/' && !isTag(arg1) && !isParamKey(arg1)
 //@   ghost after call nextNodeOrNew#1 set ret.inTrie = true
@@ -211,3 +211,9 @@ package httpd
 //@   modifies mux.mu.wheld, mux.maxParams, fields(treeNode.next), fields(treeNode.info), fields(treeNode.paramNameList), allmaps(treeNode.next), ghostfields(inTrie), ghostfields(np), ghostfields(registered)
 //@   ensures ok: muxReg(mux) && !mux.mu.wheld
 //@   ensures keep: forall i *RouteInfo {i.registered} :: old(i.registered) ==> i.registered
+
+// storePool.New (called by the pool inside Get): a new Store satisfies the pool invariant
+//@ func (*Mux).newStoreWith$1
+//@   requires mux != nil && mux.maxParams >= 0 && mux.maxParams <= 72057594037927936
+//@   modifies nothing
+//@   ensures item: typeIs(result, *Store) && fresh(payload(result, *Store)) && storePI(payload(result, *Store))
